@@ -180,6 +180,15 @@ def _leaf(name, n, seed):
         w, V = np.linalg.eigh(S)
         V = -V[:, ::-1]
         return M.DenseSymmetricMatrix(S.copy(), M.OrthogonalMatrix(V.copy()), w[::-1].copy()), S
+    if name == "dense_symmetric_eigvec_only":
+        # only one half of the optional eigendecomposition supplied (in a non-eigh order)
+        S = P_sym(n, seed)
+        w, V = np.linalg.eigh(S)
+        return M.DenseSymmetricMatrix(S.copy(), eigvec=-V[:, ::-1].copy()), S
+    if name == "dense_symmetric_eigval_only":
+        S = P_sym(n, seed)
+        w, V = np.linalg.eigh(S)
+        return M.DenseSymmetricMatrix(S.copy(), eigval=w[::-1].copy()), S
     if name == "orthogonal":
         Q = P_orth(n, seed)
         return M.OrthogonalMatrix(Q.copy()), Q
@@ -218,7 +227,8 @@ SQUARE_LEAVES = [
     "dense_definite_pos", "dense_definite_neg", "dense_definite_neg_factor", "dense_pd",
     "dense_pd_factor", "dense_pd_product", "dense_pd_product_inner", "dense_pd_product_matrix",
     "dense_square", "dense_square_lu", "dense_square_lu_transposed", "inverse_lu",
-    "dense_symmetric", "dense_symmetric_eig", "dense_symmetric_eig_perm", "orthogonal",
+    "dense_symmetric", "dense_symmetric_eig", "dense_symmetric_eig_perm",
+    "dense_symmetric_eigvec_only", "dense_symmetric_eigval_only", "orthogonal",
     "scaled_orthogonal", "eigendecomposed_symmetric", "eigendecomposed_symmetric_orth",
     "eigendecomposed_pd", "softabs", "softabs_soft",
 ]
